@@ -28,15 +28,19 @@ func runWipe(env *execenv.Env) error {
 	}
 
 	env.Out.Println("cleaning git config ...")
-	err = env.Backend.ClearUserIdentity()
+	// removing what is not there is an error for the config: only remove what there is
+	// (this takes the user identity with it)
+	conf, err := env.Backend.LocalConfig().ReadAll("git-bug")
 	if err != nil {
 		_ = env.Backend.Close()
 		return err
 	}
-	err = env.Backend.LocalConfig().RemoveAll("git-bug")
-	if err != nil {
-		_ = env.Backend.Close()
-		return err
+	if len(conf) > 0 {
+		err = env.Backend.LocalConfig().RemoveAll("git-bug")
+		if err != nil {
+			_ = env.Backend.Close()
+			return err
+		}
 	}
 
 	storage := env.Backend.LocalStorage()
